@@ -15,8 +15,11 @@ Every statement is about the HOOK of the rule at one node, in every context: exa
 denotations (control outcome, values, whole state, trace). Where exact equality is false the
 reason is stated and is one of: (D) a defect of the rule (`_full_false` + `_partial` under a
 hypothesis); (A) only allocation order / captured-environment contents differ, unobservably —
-then the theorem states exactly which part of the state differs. Lifting a hook lemma to whole
-programs is the generic visitor theorem (`Shared/VisitorSound.lean`, not available yet).
+then the theorem states exactly which part of the state differs. The generic visitor theorem
+(`Shared/VisitorSound.lean`) lifts hooks that are exact for EVERY input (`HooksExact`); none of
+the five rules qualifies — each hook is exact only under one of the hypotheses below, or changes
+closure numbering / captured environments — so no whole-rule corollary is stated here and the
+whole-rule claim is carried by the execution oracle of the harness.
 -/
 namespace DarkluaModel.C16
 open Sem Rules
